@@ -117,6 +117,7 @@ type node struct {
 
 	// violations found inside wrappers (store ordering), drained by the oracles
 	wrapViol []string
+	wrapKeys map[string]bool // kind|h|r of own votes the mirror persisted that the action store does not hold
 
 	// outgoing messages seen in gossip views, for the network harness
 	results []string
@@ -355,6 +356,10 @@ func (s nRoundStore) checkOwn(kind byte, h uint64, r uint32, p tmconsensus.Spars
 			if !found {
 				// Only the node's own state machine may have produced it; votes injected by the harness under this
 				// validator's index do not occur in the engine harness.
+				if n.wrapKeys == nil {
+					n.wrapKeys = map[string]bool{}
+				}
+				n.wrapKeys[fmt.Sprintf("%c|%d|%d", kind, h, r)] = true
 				n.wrapViol = append(n.wrapViol, fmt.Sprintf("the mirror persisted this validator's %c vote for %d/%d target %s which is not in the action store", kind, h, r, h8([]byte(target))))
 			}
 		}
